@@ -78,6 +78,88 @@ def applyFrom {D S : Type} (M : Sem D S) (envs : Nat → Env) (i : Nat) (d : D) 
   | [] => d
   | s :: ss => applyFrom M envs (i + 1) (M.exec (envs i) d s) ss
 
+/-! ### observers of commits (change data capture)
+
+store/store.go `fsmApply` registers, on a node with CDC enabled, `cdcStreamer.CommitHook` as
+SQLite's commit hook (`db.RegisterCommitHook`). SQLite asks the hook at every COMMIT and turns
+the COMMIT into a ROLLBACK when the answer is non-zero. The hook's answer may depend on
+node-local state nobody else shares (how full the consumer's channel is). Restart replay,
+snapshot install and recovery run without that state. So convergence DEPENDS on: the observer
+cannot veto. Here that dependency is explicit: `Observer` with an arbitrary private state and
+verdict, `execObserved` = SQLite's rule, `NoVeto` = the hypothesis, `cdcObserver` = the model
+of db/cdc.go whose verdicts are tied to the source by regenerated facts (Props/C01
+`code_commit_hook_cannot_veto`). -/
+
+/-- a node-local observer of commits: private state `O`; at each commit it sees the database the
+statement produced and the statement, updates its state and says whether the commit may stand -/
+structure Observer (D S : Type) where
+  O : Type
+  hook : O → D → S → O × Bool
+
+/-- SQLite with a commit hook: the statement's effect is kept iff the hook lets the commit stand -/
+def execObserved {D S : Type} (M : Sem D S) (ob : Observer D S) (e : Env) (o : ob.O) (d : D) (s : S) : ob.O × D :=
+  let d' := M.exec e d s
+  let r := ob.hook o d' s
+  (r.1, if r.2 then d' else d)
+
+/-- live apply on a node with an observer attached -/
+def applyObserved {D S : Type} (M : Sem D S) (ob : Observer D S) (envs : Nat → Env) (i : Nat) (o : ob.O) (d : D) : List S → ob.O × D
+  | [] => (o, d)
+  | s :: ss =>
+    let r := execObserved M ob (envs i) o d s
+    applyObserved M ob envs (i + 1) r.1 r.2 ss
+
+/-- THE hypothesis about observers: whatever its state, the hook lets every commit stand -/
+structure NoVeto {D S : Type} (ob : Observer D S) : Prop where
+  stands : ∀ (o : ob.O) (d : D) (s : S), (ob.hook o d s).2 = true
+
+/-- the return sites of `(*CDCStreamer).CommitHook`, in source order -/
+inductive HookSite where
+  | noEvents      -- `if len(s.pending.Events) == 0 { return true }`
+  | afterSend     -- after the non-blocking send (delivered or dropped)
+deriving Repr, DecidableEq
+
+def hookSites : List HookSite := [.noEvents, .afterSend]
+
+/-- the verdict CommitHook returns at each site -/
+def cdcVerdict : HookSite → Bool
+  | .noEvents => true
+  | .afterSend => true
+
+/-- `db.RegisterCommitHook`'s callback: hook verdict → SQLite return code -/
+def hookRC (verdict : Bool) : Nat := if verdict then 0 else 1
+
+/-- SQLite's law for commit hooks: the commit stands iff the callback returned zero -/
+def commitStands (rc : Nat) : Bool := rc == 0
+
+/-- model values compared with the regenerated facts -/
+def boolSrc : Bool → String
+  | true => "true"
+  | false => "false"
+def rcSrc : Nat → String
+  | 0 => "0"
+  | 1 => "1"
+  | _ => "?"
+def cdcHookReturns : List String := hookSites.map fun s => boolSrc (cdcVerdict s)
+def registerMapping : List String := ["if hook(): return " ++ rcSrc (hookRC true), "return " ++ rcSrc (hookRC false)]
+
+/-- db/cdc.go as an observer: the private state is the number of event groups sitting in the
+consumer's channel of capacity `cap` (never drained here: the worst case); `changes s` says
+whether the statement produced row events. A full channel drops the group and still answers at
+site `afterSend`. -/
+def cdcObserver {D S : Type} (cap : Nat) (changes : S → Bool) : Observer D S where
+  O := Nat
+  hook := fun o _ s =>
+    if changes s then (if o < cap then o + 1 else o, commitStands (hookRC (cdcVerdict .afterSend)))
+    else (o, commitStands (hookRC (cdcVerdict .noEvents)))
+
+/-- an observer that answers "not delivered" when its channel is full (what CommitHook must NOT do) -/
+def vetoingObserver {D S : Type} (cap : Nat) (changes : S → Bool) : Observer D S where
+  O := Nat
+  hook := fun o _ s =>
+    if changes s then (if o < cap then o + 1 else o, commitStands (hookRC (decide (o < cap))))
+    else (o, true)
+
 /-! ### a small executable instance (driver, witnesses) -/
 
 inductive Expr where
@@ -133,7 +215,9 @@ def miniSem : Sem Db XStmt where
 `endpoint <execute|queued|request|loadtext|querystrong>` → `true|false`   does it rewrite?
 `logged <endpoint> <now> <rnd> <stmt,…>`  → the statements that reach the log
    statements: `p:<k>:<expr>` / `d:<k>`; expr: `r` random, `n` now, integer literal, `a+b`
-`paths <now1> <rnd1> <now2> <rnd2> <stmt,…>` → `same|differ` two apply paths over the same log -/
+`paths <now1> <rnd1> <now2> <rnd2> <stmt,…>` → `same|differ` two apply paths over the same log
+`observed <cap> <stmt,…>` → `same|differ`  live apply with the CDC observer on a never-drained
+   channel of capacity `cap` versus plain apply of the same log -/
 
 structure DState where
   unit : Unit := ()
@@ -192,6 +276,13 @@ def step (d : DState) (line : String) : DState × String :=
       let b := applyFrom miniSem (fun i => ⟨n2 + i, r2 + i⟩) 0 [] ss
       (d, if a = b then "same" else "differ")
     | _, _, _, _, _ => (d, "bad-op")
+  | ["observed", cap, ss] =>
+    match cap.toNat?, (ss.splitOn ",").mapM parseXStmt with
+    | some cap, some ss =>
+      let a := (applyObserved miniSem (cdcObserver cap (fun _ => true)) (fun _ => ⟨0, 0⟩) 0 (0 : Nat) [] ss).2
+      let b := applyFrom miniSem (fun _ => ⟨0, 0⟩) 0 [] ss
+      (d, if a = b then "same" else "differ")
+    | _, _ => (d, "bad-op")
   | _ => (d, "bad-op")
 
 end RqModel.Converge
